@@ -337,7 +337,7 @@ fn supervise(id: &str, tier: &str, root: &std::path::Path) -> i32 {
         files.sort();
         let mut confirmed = None;
         for f in &files {
-            let st = Command::new(&exe).args(["replay", id]).arg(f).stdout(Stdio::null()).stderr(Stdio::null()).status();
+            let st = Command::new(&exe).args(["replay", id]).arg(f).env("DLTVERIF_INNER", "1").stdout(Stdio::null()).stderr(Stdio::null()).status();
             if let Some(h) = died(&st) {
                 confirmed = Some((f.clone(), h));
                 break;
@@ -426,6 +426,36 @@ fn main() {
                 eprintln!("unknown property {}", id);
                 std::process::exit(2)
             };
+            if std::env::var("DLTVERIF_INNER").is_err() {
+                // supervised replay: a case that kills the process or never returns is reported, not suffered
+                let exe = std::env::current_exe().expect("current_exe");
+                let mut child = std::process::Command::new(exe).args(["replay", id, file]).env("DLTVERIF_INNER", "1").spawn().unwrap_or_else(|e| {
+                    eprintln!("cannot start the replay process: {}", e);
+                    std::process::exit(2)
+                });
+                loop {
+                    std::thread::sleep(std::time::Duration::from_millis(100));
+                    match child.try_wait() {
+                        Ok(Some(st)) => match st.code() {
+                            Some(c) if c <= 2 => std::process::exit(c),
+                            other => {
+                                println!("VIOLATION property={} replay={}", id, file);
+                                println!("  replaying the case kills the process ({:?}, {})", other, st);
+                                std::process::exit(1)
+                            }
+                        },
+                        Ok(None) => {}
+                        Err(_) => std::process::exit(2),
+                    }
+                    if dltverif::runner::cpu_seconds_of(child.id()).unwrap_or(0.0) > 120.0 {
+                        let _ = child.kill();
+                        let _ = child.wait();
+                        println!("VIOLATION property={} replay={}", id, file);
+                        println!("  replaying the case does not return (120 s of CPU consumed)");
+                        std::process::exit(1)
+                    }
+                }
+            }
             let text = std::fs::read_to_string(file).unwrap_or_else(|e| {
                 eprintln!("cannot read {}: {}", file, e);
                 std::process::exit(2)
